@@ -177,7 +177,10 @@ def abortLine (toks0 : List String) : String :=
 
 /-- a download whose client falls silent after ACK 0: the retransmission interval is the acknowledged timeout,
 and DATA 1 is transmitted once plus once per failed attempt that leaves budget: `MAX_RETRIES` times in all -/
-def timingLine (toks : List String) : String :=
+def timingLine (toks0 : List String) : String :=
+  -- optional 6th token `first`: the observation stops after the first retransmission
+  let firstOnly := toks0.length = 6 && toks0.getLast? = some "first"
+  let toks := if firstOnly then toks0.take 5 else toks0
   match toks with
   | ["timing", rootH, flags, fsS, dg] =>
     match bytesOfHex rootH, bytesOfHex dg with
@@ -196,7 +199,7 @@ def timingLine (toks : List String) : String :=
             let evs : List (SEv × Nat) := (SEv.ack 0, 0) :: List.replicate 12 (SEv.fail, sc.timeout)
             let run := sRun sc content true evs
             let sends := (run.1.filter fun g => g.any fun p => match p with | .data 1 _ => true | _ => false).length
-            s!"first=oack interval={w.opts.timeoutS} transmissions={sends}"
+            s!"first=oack interval={w.opts.timeoutS} transmissions={if firstOnly then min sends 2 else sends}"
           | _ => "first=other"
         | _, _ => "first=other"
     | _, _ => "bad-op"
